@@ -48,10 +48,12 @@ class Encoding:
                 "arg_types": z3.Int(f"arg{tag}_{i}"),
                 "return_type": z3.Int(f"ret{tag}_{i}"),
                 "yield_type": z3.Int(f"yld{tag}_{i}"),
+                "date(created_at)": z3.Int(f"day{tag}_{i}"),  # the day the row was written (two days are enough to differ)
             }
             self.rows.append(row)
             self._bounded(row["module"], mod_len, 1)
             self._bounded(row["qualname"], qual_len, 0)
+            self.constraints += [row["date(created_at)"] >= 0, row["date(created_at)"] <= 1]
             self.constraints += [row["arg_types"] >= 0, row["arg_types"] <= 1, row["return_type"] >= 0, row["return_type"] <= NULL,
                                  row["yield_type"] >= 0, row["yield_type"] <= NULL]
         self.M = z3.String(f"M{tag}")
@@ -124,7 +126,9 @@ class Encoding:
         if isinstance(q["source"], dict):
             inner_out, _ = self.evaluate(q["source"], binding, present)
             present = inner_out
-            provided = set(COLS) | {"created_at"} if q["source"]["select"] == ["*"] else set(q["source"]["select"])
+            provided = set(COLS) | {"created_at", "date(created_at)"} if q["source"]["select"] == ["*"] else set(q["source"]["select"])
+            if "created_at" in provided:
+                provided.add("date(created_at)")
             if not (set(c["col"] for c in q["where"]) | set(q["group_by"] or []) | set(q["select"])) <= provided | {"*"}:
                 from engine.sqlfront import Unsupported
 
@@ -196,4 +200,5 @@ def model_row(model, row) -> List[Any]:
     def i(x):
         return model.eval(x, model_completion=True).as_long()
 
-    return [bool(model.eval(row["present"], model_completion=True)), s(row["module"]), s(row["qualname"]), i(row["arg_types"]), i(row["return_type"]), i(row["yield_type"])]
+    return [bool(model.eval(row["present"], model_completion=True)), s(row["module"]), s(row["qualname"]), i(row["arg_types"]), i(row["return_type"]), i(row["yield_type"]),
+            i(row["date(created_at)"])]
